@@ -135,8 +135,16 @@ class ProgGen:
         self.nested_mutated: Set[str] = set()
 
     # ------------------------------------------------------------ utilities
+    # identifiers that merely contain a word the line-based parser looks for (directive names, keywords, device
+    # method names): they must be treated like any other name
+    TRICKY_HELPER_NAMES = ["set_target", "on_target", "retarget", "sleeper", "printer", "forward", "iffy", "whiles", "define",
+                           "is_pressed_n", "reader", "writer", "ranged", "breaker", "returned", "elsewhere", "imports", "led_on"]
+
     def fresh(self, prefix: str) -> str:
         self.counter += 1
+        if prefix == "f" and self.rng.random() < 0.2:
+            # the word sits at the end of the name (directly in front of the parenthesis of a call)
+            return f"u{self.counter}_{self.rng.choice(self.TRICKY_HELPER_NAMES)}"
         return f"{prefix}{self.counter}"
 
     def chance(self, p: float) -> bool:
@@ -586,6 +594,24 @@ class ProgGen:
             self.probe(depth, env, [v])
 
     def stmt_swap(self, depth: int, env) -> None:
+        lists = sorted(n for n, t in env.items() if t == "list" and n not in self.frozen_len and n in self.global_lists)
+        if len(lists) >= 2 and self.chance(0.25):
+            # two declared lists exchanged through a tuple assignment
+            a, b = self.rng.sample(lists, 2)
+            if self.list_elem.get(a) == self.list_elem.get(b):
+                self.emit(depth, f"{a}, {b} = {b}, {a}")
+                self.list_len[a], self.list_len[b] = self.list_len.get(b, 0), self.list_len.get(a, 0)
+                la, lb = self.literal_items.pop(a, None), self.literal_items.pop(b, None)
+                if lb is not None:
+                    self.literal_items[a] = lb
+                if la is not None:
+                    self.literal_items[b] = la
+                for group in (self.mutated_lists, self.nested_mutated):
+                    group.update((a, b))
+                self.len_safe.discard(a)
+                self.len_safe.discard(b)
+                self.probe(depth, env, [a, b])
+                return
         typ = self.rng.choice(["int", "float", "str", "bool"])
         names = sorted(n for n, t in env.items() if t == typ and n not in self.frozen_len and n not in self.readonly)
         if len(names) >= 2 and self.chance(0.7):
